@@ -292,7 +292,9 @@ cdef class LinearRegressorCriterion(CommonRegressorCriterion):
         cdef int nrhs = 1
         cdef int lda = row
         cdef int ldb = row
-        cdef float64_t rcond = -1
+        # same cut-off as numpy.linalg.lstsq: the machine precision alone (-1)
+        # does not detect every rank deficient matrix (duplicated columns)
+        cdef float64_t rcond = 2.220446049250313e-16 * max(row, col)
         cdef int rank
         cdef int work = <int>self.work
 
